@@ -1672,11 +1672,12 @@ def _scenario_steps(ctx: Ctx, scn, collect, shared_inner=None, sink=None):
             ui = 0
             for ev in sol:
                 if ev["raised"]:
-                    toks.append("1 0:0 " + wire_list([0.0] * n))
+                    toks.append("1 0:0 0 " + wire_list([0.0] * n))
                 else:
                     up = ups[ui]
                     ui += 1
-                    toks.append("0 " + wf(up["loss"]) + " " + wire_list(up["D"].double().flatten().tolist()))
+                    toks.append("0 " + wf(up["loss"]) + f" {den_sign_bit(up['J'], up['D'], up['R'])} " +
+                                wire_list(up["D"].double().flatten().tolist()))
             obs = []
             for t in range(1, ntr + 1):
                 if t < ntr:
